@@ -190,11 +190,16 @@ class Built:
 _INDEX_CACHE = {}
 
 
+def label_of(kind, i):
+    """the label of logical row / column i: NOT in sorted order (alignment is by label, never by sorted rank)"""
+    return f'{kind}{(i * 37 + 11) % 64:02d}'
+
+
 def labels(kind, n):
     import static_frame as sf
     key = (kind, n)
     if key not in _INDEX_CACHE:
-        _INDEX_CACHE[key] = sf.Index(tuple(f'{kind}{i}' for i in range(n)))
+        _INDEX_CACHE[key] = sf.Index(tuple(label_of(kind, i) for i in range(n)))
     return _INDEX_CACHE[key]
 
 
@@ -588,7 +593,7 @@ def eval_frame(ctx, c, outs):
             ctx.count(f'fillframe_{kind}')
             data = np.array([[grid_value(kind, i * m + j) for j in co] for i in ro],
                             dtype={'float': float, 'int': np.int64, 'str': str}[kind]).reshape(len(ro), len(co))
-            other = sf.Frame(data, index=[f'r{i}' for i in ro], columns=[f'c{j}' for j in co])
+            other = sf.Frame(data, index=[label_of('r', i) for i in ro], columns=[label_of('c', j) for j in co])
             g = other_grid(c)
             exp = [[(g[i][j] if (ids[i][j] == 0 and g[i][j] is not None) else ids[i][j]) for j in range(m)] for i in range(n)]
             check(f'fillna(Frame[{kind}])', run(lambda: f.fillna(other)), exp, None if mod is None else mod[1] if mod[0] == 'ok' else mod, op,
@@ -633,7 +638,7 @@ def eval_series(ctx, c, outs):
     arr = make_array(dt, col)
     # the labels of the target are not in sorted order (every alignment below is by label, never by rank)
     tperm = c.get('tperm') or list(range(n))
-    s = sf.Series(arr, index=sf.Index([f'r{p}' for p in tperm]), name='nm', own_index=True)
+    s = sf.Series(arr, index=sf.Index([label_of('r', p) for p in tperm]), name='nm', own_index=True)
     fill = FILLS[c.get('fill', 'float')]
     model = [parse_answer(o) for o in outs] if outs else None
     pos = 0
@@ -712,7 +717,7 @@ def eval_series(ctx, c, outs):
     check(f'fillna({fill!r})', run(lambda: s.fillna(fill)), [FILL_ID if x == 0 else x for x in ids], nxt(), ['fillna'])
     # fillna Series (partial, shuffled, with foreign labels)
     order = c['other_order']
-    other = sf.Series([grid_value(okind, i) for i in order], index=[f'r{i}' for i in order]) if order else sf.Series((), index=())
+    other = sf.Series([grid_value(okind, i) for i in order], index=[label_of('r', i) for i in order]) if order else sf.Series((), index=())
     cov = set(c['other'])
     exp = [GRID_ID + tperm[i] if (ids[i] == 0 and tperm[i] in cov) else ids[i] for i in range(n)]
     check('fillna(Series)', run(lambda: s.fillna(other)), exp, nxt() if tperm == list(range(n)) else (nxt(), None)[1], ['fillseries'])
